@@ -20,6 +20,7 @@ import PoetryVerif.Proofs.EqHashMarker
 import PoetryVerif.Proofs.EqHashDep
 import PoetryVerif.Proofs.EqHashParse
 import PoetryVerif.Proofs.VersionParse
+import PoetryVerif.Proofs.VRangeSpecSet
 
 set_option linter.unusedSimpArgs false
 set_option linter.unusedVariables false
@@ -123,8 +124,44 @@ theorem constraint_beq_interchangeable_partial (a b : VC) (ha : vcNonDegenerate 
           (fun c hc => hwb c (by simpa [VC.flatten] using hc)) h v
   exact ⟨plain, fun hna hnb => by rw [VC.allows_of_notUnion a v hna, VC.allows_of_notUnion b v hnb, plain]⟩
 
-/-- the full statement: `allows` itself, unions included (not proved: congruence of the
-`excludes_single_version` computation, i.e. of `VersionRange().difference(union)`, in the bounds) -/
+/-- **equal constraints admit the same versions through `allows` itself, unions included**, in the regular
+setting: both constraints are well-formed (what `VersionUnion.of` establishes: members well-formed and inhabited,
+sorted, consecutive ones separated) over bounds that are mutually regular (any two equal or of different
+releases) and not local builds (`RegB B`).  There `VersionUnion.allows` never raises and its
+`excludes_single_version` shortcut agrees with the member-by-member answer (`VC.allows_of_reg`), so the
+member-level congruence carries over. -/
+theorem constraint_beq_interchangeable_regular {B : List Version} (hB : RegB B) (a b : VC)
+    (ha : vcNonDegenerate a = true) (hb : vcNonDegenerate b = true) (hwa : a.WF) (hwb : b.WF)
+    (hma : ∀ x ∈ a.flatten, RegMember B x) (hmb : ∀ x ∈ b.flatten, RegMember B x)
+    (h : Marker.VC.eqv a b = true) (v : Version) : a.allows v = b.allows v := by
+  have wfb : ∀ c : VC, (∀ x ∈ c.flatten, RegMember B x) → c.wfB := by
+    intro c hc x hx
+    have hw := (hc x hx).1
+    cases x with
+    | ver y => intro e he; simp [RC.bounds_ver] at he; subst he; exact hw
+    | rng r => exact hw.1
+  rw [VC.allows_of_reg hB a hwa hma v, VC.allows_of_reg hB b hwb hmb v,
+    (constraint_beq_interchangeable_partial a b ha hb (wfb a hma) (wfb b hmb) h v).1]
+
+/-- the hypotheses are satisfiable: `!=1.0` and `!=1.0.0` (`<1.0 || >1.0` against `<1.0.0 || >1.0.0`), equal,
+not identical, both well-formed over the regular bound set `{1.0, 1.0.0}` -/
+example : let V := Version.mk' 0 [1, 0] none none none none
+    let W := Version.mk' 0 [1, 0, 0] none none none none
+    let a := VC.union [.rng ⟨none, some V, false, false⟩, .rng ⟨some V, none, false, false⟩]
+    let b := VC.union [.rng ⟨none, some W, false, false⟩, .rng ⟨some W, none, false, false⟩]
+    RegB [V, W] ∧ a.WF ∧ b.WF ∧ (∀ x ∈ a.flatten, RegMember [V, W] x) ∧ (∀ x ∈ b.flatten, RegMember [V, W] x) ∧
+    Marker.VC.eqv a b = true ∧ a ≠ b := by
+  intro V W a b
+  have h1 := twoSided_union_wf (B := [V, W]) V V (by decide) (by decide) (le_refl _) false (fun h => by cases h)
+    (by simp) (by simp)
+  have h2 := twoSided_union_wf (B := [V, W]) W W (by decide) (by decide) (le_refl _) false (fun h => by cases h)
+    (by simp) (by simp)
+  exact ⟨RegB.of_check (by decide), h1.1, h2.1, h1.2, h2.2, by decide, by decide⟩
+
+/-- the full statement: `allows` itself, unions included.  Proved in the regular setting
+(`constraint_beq_interchangeable_regular`); not proved outside it: congruence of the `excludes_single_version`
+computation, i.e. of `VersionRange().difference(union)`, in the bounds, for unions that are not well-formed or whose
+bounds share a release without being equal -/
 def constraint_interchangeable_full_statement : Prop :=
   ∀ a b : VC, vcNonDegenerate a = true → vcNonDegenerate b = true → a.wfB → b.wfB → Marker.VC.eqv a b = true →
     ∀ v, a.allows v = b.allows v
